@@ -19,10 +19,19 @@ import (
 	"time"
 )
 
-const (
-	verif = "/verif"
-	repo  = "/repo"
-)
+const repo = "/repo"
+
+// verif is the framework's root: the directory above the one this binary lives in.
+var verif = func() string {
+	if exe, err := os.Executable(); err == nil {
+		if d := filepath.Dir(filepath.Dir(exe)); d != "/" && d != "." {
+			if _, err := os.Stat(filepath.Join(d, "rt")); err == nil {
+				return d
+			}
+		}
+	}
+	return "/verif"
+}()
 
 // harnessSpec says how one harness takes part in a property's check.
 type harnessSpec struct {
@@ -202,7 +211,7 @@ func main() {
 	rwOK := true
 	if needRW {
 		if _, err := os.Stat(ovRW); err != nil {
-			rc, to := run(verif, goEnv(), 10*time.Minute, logf, logf, filepath.Join(verif, "bin", "vsrewrite"), "-out", filepath.Join(work, "rw"))
+			rc, to := run(verif, goEnv(), 10*time.Minute, logf, logf, filepath.Join(verif, "bin", "vsrewrite"), "-rt", filepath.Join(verif, "rt"), "-harness", filepath.Join(verif, "harness"), "-out", filepath.Join(work, "rw"))
 			if rc != 0 || to {
 				rwOK = false
 				os.Remove(ovRW)
@@ -211,7 +220,7 @@ func main() {
 		}
 	}
 	if _, err := os.Stat(ovPlain); err != nil {
-		rc, _ := run(verif, goEnv(), 10*time.Minute, logf, logf, filepath.Join(verif, "bin", "vsrewrite"), "-norewrite", "-out", filepath.Join(work, "plain"))
+		rc, _ := run(verif, goEnv(), 10*time.Minute, logf, logf, filepath.Join(verif, "bin", "vsrewrite"), "-rt", filepath.Join(verif, "rt"), "-harness", filepath.Join(verif, "harness"), "-norewrite", "-out", filepath.Join(work, "plain"))
 		if rc != 0 {
 			notes = append(notes, "plain overlay generation failed")
 		}
